@@ -244,7 +244,7 @@ func rqIssue(ctl *SourceControl, c rqCase, dir string, nsamp int) error {
 			"empty": {}}[c.Arg]
 		return ctl.ConfigureMixFraction(&mfo, &ok)
 	case "rawblock":
-		n := map[string]int{"valid": 100, "zero": 0, "negative": -10, "large": 300000}[c.Arg]
+		n := map[string]int{"valid": 100, "small": 40, "zero": 0, "negative": -10, "large": 300000}[c.Arg]
 		var name string
 		err := ctl.StoreRawDataBlock(n, &name)
 		if c.Arg == "large" {
@@ -464,11 +464,17 @@ func rqSequences(t *testing.T, base string, id *int) {
 	fixed := [][]rqCase{
 		{pool[5], pool[1], pool[0]}, {pool[5], pool[2], pool[0]}, {pool[6], pool[3], pool[0]}, {pool[7], pool[5], pool[1], pool[0]},
 		{pool[7], pool[9], pool[11], pool[10], pool[8]}, {pool[13], pool[0], pool[14], pool[15]},
+		// a raw block, then the same source object restarted with another number of channels, then a smaller raw block
+		{{Kind: "rawblock", Arg: "valid"}, {Kind: "restart", Arg: "nchan3"}, {Kind: "rawblock", Arg: "small"}},
+		{{Kind: "rawblock", Arg: "valid"}, {Kind: "restart", Arg: "nchan1"}, {Kind: "rawblock", Arg: "valid"}, {Kind: "projectors", Arg: "current"}},
 	}
 	for k := 0; k < nseq+len(fixed); k++ {
 		var seq []rqCase
 		if k < len(fixed) {
 			seq = fixed[k]
+			if os.Getenv("VERIF_NORESTART") != "" && len(seq) > 1 && seq[1].Kind == "restart" {
+				continue // (race-detector workload: histories within one acquisition only)
+			}
 		} else {
 			for j := 2 + rng.Intn(4); j > 0; j-- {
 				seq = append(seq, pool[rng.Intn(len(pool))])
@@ -491,6 +497,19 @@ func rqSequences(t *testing.T, base string, id *int) {
 		lastErr := ""
 		ms := 0
 		for _, c := range seq {
+			if c.Kind == "restart" {
+				// Stop, another channel count, Start: the source object (and what it remembers of earlier requests) lives on
+				time.Sleep(150 * time.Millisecond) // (let the raw block of the run that ends be completed)
+				rig.stop()
+				nch := map[string]int{"nchan3": 3, "nchan1": 1}[c.Arg]
+				if err := rig.ctl.triangle.Configure(&TriangleSourceConfig{Nchan: nch, SampleRate: 20000, Min: 100, Max: 400}); err != nil {
+					t.Fatal(err)
+				}
+				if err := rig.start(); err != nil {
+					t.Fatal(err)
+				}
+				continue
+			}
 			ret, msg, m := rqCall(func() error { return rqIssue(rig.ctl, c, dir, rig.ctl.status.Nsamples) }, 2500*time.Millisecond)
 			ms += m
 			if !ret {
